@@ -159,6 +159,9 @@ package casketfile
 
 //@ func (*parser).directives
 //@   requires p != nil && p.cursor >= -1 && p.block.Tokens != nil
+//@   // C10: `import` at statement position inside a block is expanded wherever it stands (first token of a spliced
+//@   // snippet, same line as the opening brace): it is never handed on to be stored as a directive called "import"
+//@   at call (*parser).directive before [import_is_expanded_never_stored] p.Val() != "import"
 //@   modifies Dispenser.cursor, Dispenser.tokens, MV:map[string][]github.com/tmpim/casket/casketfile.Token, MD:map[string][]github.com/tmpim/casket/casketfile.Token, E:github.com/tmpim/casket/casketfile.Token, ghost:fileLookups
 //@   ensures [cursor_ok] p.cursor >= -1
 //@   loop 1 invariant p.cursor >= -1 && p.block.Tokens != nil
@@ -176,6 +179,16 @@ package casketfile
 //@   modifies Dispenser.cursor, Dispenser.tokens, ServerBlock.Keys, parser.eof, ghost:fileLookups
 //@   ensures [cursor_ok] p.cursor >= 0
 //@   loop 1 invariant p.cursor >= 0
+
+//@ unit valid_directive frames=on props=C09,C10 filter=`casketfile\.parser\)\.validDirective$`
+//@ // The list of valid directives a parser is given is the server type's ORDER-DEFINING table (ValidDirectives returns the
+//@ // table itself and executeDirectives walks it): checking a name against it reads it and changes nothing, on the
+//@ // accepting and on the rejecting path alike (frame checked: no `modifies`, and no call to an uncontracted function).
+//@ func (*parser).validDirective
+//@   requires p != nil
+//@   ensures [no_list_accepts_everything] p.validDirectives == nil ==> result
+//@   ensures [known_iff_listed] p.validDirectives != nil ==> (result == exists(k, 0, len(p.validDirectives), p.validDirectives[k] == dir))
+//@   loop 1 invariant 0 <= #i && #i <= len(p.validDirectives) && forall(k, 0, #i, p.validDirectives[k] != dir)
 
 //@ unit lexer_next props=C10,C09 filter=`casketfile\.lexer\)\.next$`
 //@ ghost remaining int
